@@ -12,7 +12,7 @@
 //!  (B) phonetic history graph (tiny data) with all valid selection bytes on punctuation keys;
 //!  (C) fixed history graph with suggestions on and a suggestions-off twin.
 
-use crate::drv::{fixture, hist_short, real_db, scratch_xdg, Ctx, Ev, Fail, Opts, Out, Rend};
+use crate::drv::{fixture, hist_short, probhat, real_db, scratch_xdg, Ctx, Ev, Fail, Opts, Out, Rend};
 use crate::histgraph::{self, HistStats};
 use crate::par::par_for;
 use crate::props::c01::fail_violation;
@@ -409,6 +409,116 @@ pub fn run(report: &Report, thorough: bool) -> Evidence {
         states += total.states;
         transitions += total.transitions;
         parts.insert("C_fixed_history_graph_with_twin".into(), json!({"configurations": n_cfg, "depth": depth, "states": total.states, "transitions": total.transitions, "distinct_outcomes": total.distinct_outcomes}));
+    }
+
+    // ---------------- (D) key sweep ----------------
+    // every published key after short texts: phonetic (8 configurations, real data) - the auxiliary text is the text typed
+    // so far plus the key's character from the harness's own key table; fixed (Probhat and the synthetic layout, both
+    // planes) - the auxiliary text is the composed text of a twin with the suggestion list off.
+    if crate::par::part_enabled("D") {
+        let swept = AtomicU64::new(0);
+        let pres = ["", "k", "kO", "k:", "(a", "1"];
+        par_for(
+            8,
+            1,
+            |w| scratch_xdg(&format!("c02d-{}", w)),
+            |xdg, bits| {
+                let mut o = Opts::phonetic(&real_db(), xdg);
+                o.english = bits & 1 != 0;
+                o.ansi = bits & 2 != 0;
+                o.smart = bits & 4 != 0;
+                let mut ctx = Ctx::new(&o).expect("ctx");
+                for pre in pres {
+                    for kd in crate::keys::KEYS.iter() {
+                        for m in [0u8, 1, 2] {
+                            let mut h: Vec<Ev> = pre.chars().map(Ev::ch).collect();
+                            h.push(Ev::Key { code: kd.code, m, sel: 0 });
+                            let r = histgraph::replay(&mut ctx, &BTreeMap::new(), &h);
+                            if let Some((i, f)) = r.failed_at {
+                                report.add(fail_violation("C02", &f, &o, &h[..=i.min(h.len() - 1)]));
+                                continue;
+                            }
+                            swept.fetch_add(1, Ordering::Relaxed);
+                            let text = typed_text(&h);
+                            match r.shown {
+                                Some(rend) => {
+                                    if let Some((kind, d)) = check_shape(&rend, true) {
+                                        report.add(shape_violation(kind, d, &o, &h, &rend));
+                                    }
+                                    if let Rend::Full { aux, .. } = &rend {
+                                        if *aux != text {
+                                            report.add(Violation::new("C02", "aux-mismatch", "aux-mismatch:key-sweep").opts(&o).events(&h).feat("key", kd.name).detail(format!("auxiliary text {:?}, typed text {:?}", aux, text)));
+                                        }
+                                    }
+                                }
+                                None => {}
+                            }
+                        }
+                    }
+                }
+            },
+            |_| (),
+        );
+        let fixed_layouts = [probhat(), layout.clone()];
+        par_for(
+            fixed_layouts.len() * 8,
+            1,
+            |w| scratch_xdg(&format!("c02df-{}", w)),
+            |xdg, idx| {
+                let bits = idx / fixed_layouts.len();
+                let mut o = Opts::fixed(&fixed_layouts[idx % fixed_layouts.len()], &tiny, xdg);
+                o.fsugg = true;
+                o.english = bits & 1 != 0;
+                o.numpad = bits & 2 != 0;
+                if bits & 4 != 0 {
+                    o.vowel = true;
+                    o.chandra = true;
+                    o.kar = true;
+                    o.reph = true;
+                }
+                let mut o2 = o.clone();
+                o2.fsugg = false;
+                o2.xdg = format!("{}-twin", xdg);
+                std::fs::create_dir_all(o2.user_dir()).expect("twin dir");
+                let mut ctx = Ctx::new(&o).expect("ctx");
+                let mut twin = Ctx::new(&o2).expect("twin");
+                for pre in ["", "k", "k/", "ka", "\"k"] {
+                    for kd in crate::keys::KEYS.iter() {
+                        for m in [0u8, 2] {
+                            let mut h: Vec<Ev> = pre.chars().map(Ev::ch).collect();
+                            h.push(Ev::Key { code: kd.code, m, sel: 0 });
+                            let r = histgraph::replay(&mut ctx, &BTreeMap::new(), &h);
+                            if let Some((i, f)) = r.failed_at {
+                                report.add(fail_violation("C02", &f, &o, &h[..=i.min(h.len() - 1)]));
+                                continue;
+                            }
+                            let t = histgraph::replay(&mut twin, &BTreeMap::new(), &h);
+                            if t.failed_at.is_some() {
+                                continue;
+                            }
+                            swept.fetch_add(1, Ordering::Relaxed);
+                            let tt = t.shown.map(|x| x.text()).unwrap_or_default();
+                            if let Some(rend) = r.shown {
+                                if let Some((kind, d)) = check_shape(&rend, true) {
+                                    report.add(shape_violation(kind, d, &o, &h, &rend));
+                                }
+                                if let Rend::Full { aux, .. } = &rend {
+                                    if *aux != tt {
+                                        report.add(Violation::new("C02", "aux-mismatch", "aux-mismatch:key-sweep").opts(&o).events(&h).feat("key", kd.name).detail(format!("auxiliary text {:?}, composed text of the suggestions-off twin {:?}", aux, tt)));
+                                    }
+                                }
+                            }
+                        }
+                    }
+                }
+            },
+            |_| (),
+        );
+        let n = swept.load(Ordering::Relaxed);
+        checked.fetch_add(n, Ordering::Relaxed);
+        states += n;
+        transitions += n;
+        parts.insert("D_key_sweep".into(), json!({"presses": n, "phonetic_configurations": 8, "fixed_configurations": 16}));
     }
 
     let mut ev = Evidence::new("C02", &report.tier, "model_checking");
